@@ -85,10 +85,26 @@ class Gen:
         return [(it["lo"], it["hi"]) for it in self.L["prims"][pname]["valid"]
                 if it["k"] in ("range", "named") and it["hi"] > it["lo"]]
 
+    def near_values(self, pname):
+        """valid values whose minimal encoding is shorter than the field (sign fill / zero fill matters)"""
+        rs = self.ranges(pname)
+        near = [s * (256 ** k) + d for k in range(0, 8) for s in (1, -1) for d in (-1, 0, 1)] + [0, 10, -10, 127, -127, -129]
+        return [x for x in dict.fromkeys(near)
+                if any(lo <= x < hi for lo, hi in rs) and self.in_width(self.L["prims"][pname], x)]
+
+    def sweep(self, pname):
+        """fixed list of valid values of a primitive: every boundary of its valid items plus the short-encoding values"""
+        return list(dict.fromkeys(self.candidates(pname) + self.near_values(pname)))
+
     def prim_value(self, pname, small=False):
         c = self.candidates(pname)
         rs = self.ranges(pname)
         r = self.rnd.random()
+        if rs and not small and r > 0.88:
+            # values whose minimal encoding is shorter than the field (sign fill / zero fill matters): 0, +-1, +-256^k +- 1
+            near = self.near_values(pname)
+            if near:
+                return self.rnd.choice(near)
         if rs and (r < 0.35 or not c):
             lo, hi = self.rnd.choice(rs)
             if small:
